@@ -279,8 +279,7 @@ def run(ctx):
     ks = []
     ctx.guarded('C18/locate-kernels', lambda: ks.extend(kernels(ctx, widths)))
     ctx.guarded('C18/locate-factory-kernels', lambda: ks.extend(factory_kernels(ctx, [w for w in widths if w in (8, 64)])))
-    for K in ks:
-        ctx.guarded(K.name, lambda K=K: run_kernel(ctx, K))
+    ctx.run_families([(K.name, (lambda K=K: run_kernel(ctx, K))) for K in ks])
     for n in getattr(ctx, 'extra_natives', []):
         n.close()
     ctx.bounds += [f'bit-vector widths {widths}; operands: every natural below 2^w (Int-mode, no bit-blasting); of_int / overflows arguments within 4 * 2^w',
